@@ -619,6 +619,11 @@ pub fn run_c15(ctx: &mut Ctx, shard: usize, nshards: usize) {
             [[0x00u8, 0x64, 0x05, 0x07], [0x00, 0x78, 0x07, 0x87]].concat(),
             vec![0u8; 24],
             vec![0xffu8; 24],
+            // control information that looks like an RFC 3550 padding trailer (the P bit is not set)
+            vec![0, 0, 0, 4],
+            vec![0, 0, 0, 0, 0, 0, 0, 8],
+            vec![0, 0, 0, 4, 0, 0, 0, 4],
+            vec![0, 0, 0, 1],
         ];
         for r in &reps {
             for f in 0..5usize {
